@@ -203,10 +203,14 @@ def gen_filler(g, cfg, sigs, state):
     return rec
 
 
-def generate(run_seed):
+def generate(run_seed, deep=False):
     st = Streams(run_seed)
     g, sc = st["gen"], st["sched"]
     cfg = gen_config(g)
+    cfg["deep"] = bool(deep) and st["deep"].random() < 0.5
+    if cfg["deep"]:      # thorough tier: long histories, more signatures, more repetitions
+        cfg["length"] = st["deep"].randint(60, 160)
+        cfg["nsig"] = st["deep"].randint(6, 14)
     sigs = []
     for k in range(cfg["nsig"]):
         api = g.choice(cfg["apis"])
@@ -215,7 +219,7 @@ def generate(run_seed):
         rec = gen_call(g, cfg, api, seed, mid)
         rec["sig"] = k
         sigs.append(rec)
-    remaining = {k: sc.randint(2, 6) for k in range(len(sigs))}
+    remaining = {k: sc.randint(2, 6) if not cfg["deep"] else sc.randint(3, 9) for k in range(len(sigs))}
     evaluated = {}      # sig -> perturbed since last evaluation?
     ops = []
     state = {"slots": []}
